@@ -54,8 +54,43 @@ def matcher_path_arg(f, call):
     return None
 
 
+def filter_replace_rule(res, fx):
+    """PathMatcher::PutPathsFromMessage: a filter archive found for path i ALWAYS replaces the filter carried over from the previous path (the server adds an empty dummy archive for an
+    unfiltered subscription precisely to stop the previous filter from bleeding down)"""
+    f = fx.fn1('muscle::PathMatcher::PutPathsFromMessage')
+    puts = [c for c in f.walk() if c.is_call() and (c.get('q') or '').endswith('PathMatcher::PutPathFromString') and len(c.args()) >= 2]
+    finds = [c for c in f.walk() if c.is_call() and (c.get('q') or '').endswith('Message::FindMessage')]
+    if not puts or not finds:
+        raise AnalysisBroken('SUBSCRIBE-PAIR: PutPathsFromMessage: FindMessage / PutPathFromString not found')
+    fv = A.strip_casts(puts[0].args()[1])
+    ok = False
+    if fv['k'] == 'DeclRefExpr' and fv.get('d') is not None:
+        asg = [w for w in f.walk() if (w['k'] == 'BinaryOperator' and w.get('op') == '=' and A.strip_casts(w['ch'][0]).get('d') == fv['d']) or
+               (w['k'] == 'CXXOperatorCallExpr' and (w.get('q') or '').endswith('operator=') and len(w['ch']) >= 3 and A.strip_casts(w['ch'][1]).get('d') == fv['d'])]
+        # on the OK edge of FindMessage every path to the PutPathFromString call passes an assignment of the filter variable
+        ok = bool(asg)
+        for fm in finds:
+            for blk in f.blocks.values():
+                if blk.cond is None or blk.cond not in f.nodes or len(blk.succ) != 2:
+                    continue
+                cn = f.nodes[blk.cond]
+                n0, pol = P.strip_not(cn, True)
+                k_ = P.is_status_test(n0)
+                if k_ is None or fm not in list(n0.walk()):
+                    continue
+                okedge = 0 if ((k_ == 'ok') == pol) else 1
+                tgt = blk.succ[okedge]
+                aps = set(p_ for p_ in (P.pos_of(f, w) for w in asg) if p_)
+                if tgt is not None and tgt >= 0 and C.can_reach(f, (tgt, -1), set([P.pos_of(f, puts[0])]), avoid_points=aps):
+                    ok = False
+    res.ob('SUBSCRIBE-PAIR', f.where(puts[0]), 'PutPathsFromMessage: a filter archive found for a path always replaces the filter carried over from the previous path', ok, function=f.q,
+           key='SUBSCRIBE-PAIR|%s|filter-replace' % f.q,
+           message='PutPathsFromMessage can reach PutPathFromString() on the found-an-archive edge without assigning the filter variable: the (empty) archive that marks a subscription as unfiltered '
+                   'no longer stops the previous path\'s filter, so the initial snapshot of the unfiltered subscription is computed with that filter and nodes failing it are never sent')
+
+
 def run(res, tier):
-    fx = common.load_units(res, ['reflector/StorageReflectSession.cpp', 'reflector/DataNode.cpp', 'regex/PathMatcher.cpp'], fn_regex=r'^muscle::(StorageReflectSession|DataNode|PathMatcher)')
+    fx = common.load_units(res, ['reflector/StorageReflectSession.cpp', 'reflector/DataNode.cpp', 'regex/PathMatcher.cpp'], fn_regex=r'^muscle::(StorageReflectSession|DataNode|PathMatcher|ImmutableHashtablePool)')
     res.functions_analysed = sum(1 for f in fx.funcs.values() if f.full)
     # ---------------------------------------------------------------------------------- NOTIFY-PAIR
     res.rule('NOTIFY-PAIR', 'DataNode: every write of _data is followed by NotifySubscribersThatNodeChanged unless the notify-with session is NULL; PutChild attaches (SetParent => marks are computed) '
@@ -207,36 +242,8 @@ def run(res, tier):
                            % (f.q, m, c.args()[0].text(40), '; '.join(why) if why and not good else 'a path skips the matching marks traversal'))
     if n_sub < 2:
         raise AnalysisBroken('SUBSCRIBE-PAIR: only %d subscription-table mutations found' % n_sub)
-    # the per-depth entries table is selected with the depth of the very string that is then looked up in it
-    n_key = 0
-    for f in sorted(srs, key=lambda f: f.line):
-        for c in f.walk():
-            if c['k'] != 'CXXMemberCallExpr' or (c.get('q') or '').split('::')[-1] not in ('Get', 'ContainsKey', 'GetOrPut', 'Put', 'Remove') or not c.args() or c.receiver() is None:
-                continue
-            sub = [x for x in c.receiver().walk() if x['k'] in ('ArraySubscriptExpr', 'CXXOperatorCallExpr') and any((y.get('q') or '').endswith('PathMatcher::GetEntries') for y in x.walk() if y.is_call())]
-            if not sub:
-                continue
-            idx = sub[0]['ch'][-1]
-            keyvars = set(x['d'] for x in c.args()[0].walk() if x['k'] == 'DeclRefExpr' and 'd' in x)
-            # the index expression, through one local, must be GetPathDepth(<expr over the same variable>)
-            e = A.strip_casts(idx)
-            if e['k'] == 'DeclRefExpr' and 'd' in e:
-                dd = e['d']
-                for v in f.walk():
-                    if v['k'] == 'VarDecl' and v.get('d') == dd and v['ch']:
-                        e = A.strip_casts(v['ch'][0])
-            gpd = [y for y in e.walk() if y.is_call() and (y.get('q') or '') == 'muscle::GetPathDepth']
-            if not gpd:
-                continue
-            n_key += 1
-            dvars = set(x['d'] for x in gpd[0].walk() if x['k'] == 'DeclRefExpr' and 'd' in x)
-            okk = bool(keyvars & dvars)
-            res.ob('SUBSCRIBE-PAIR', f.where(c), 'lookup of `%s` in GetEntries()[depth] uses the depth of the same string' % c.args()[0].text(30), okk, how='depth = %s' % gpd[0].text(50), function=f.q,
-                   key='SUBSCRIBE-PAIR|%s|same-key' % f.q,
-                   message='%s looks `%s` up in the entries table for depth %s: a different string, so an existing subscription is not found and is registered a second time '
-                           '(no filter diff is sent, the marks are counted twice)' % (f.q, c.args()[0].text(30), gpd[0].text(50)))
-    if n_key < 1:
-        raise AnalysisBroken('SUBSCRIBE-PAIR: the existing-subscription lookup (GetEntries()[GetPathDepth(p)].Get(p)) was not found')
+    from . import srs_shared as _SH0
+    _SH0.same_key_rule(res, fx, 'SUBSCRIBE-PAIR')
     f = fx.fn1(SRS + '::NodeCreated')
     ok = False
     for c in f.walk():
@@ -244,10 +251,19 @@ def run(res, tier):
             d = A.strip_casts(c.args()[2])
             if d['k'] == 'CXXMemberCallExpr' and (d.get('q') or '').endswith('::GetMatchCount') and d.receiver() is not None and A.strip_casts(d.receiver()).get('q') == SRS + '::_subscriptions':
                 nodearg = A.strip_casts(d.args()[0]) if d.args() else None
-                ok = nodearg is not None and nodearg.get('d') == f.params[0]['d']
+                # marks are placed per path, independent of node content: no payload is handed to the matcher (a filter would make the mark depend on the node's first payload)
+                a1 = A.strip_casts(d.args()[1]) if len(d.args()) > 1 else None
+                nodata = a1 is not None and (a1['k'] in ('GNUNullExpr', 'CXXNullPtrLiteralExpr') or a1.get('v') == 0)
+                ok = nodearg is not None and nodearg.get('d') == f.params[0]['d'] and nodata
     res.ob('SUBSCRIBE-PAIR', f.where(), 'NodeCreated marks a new node with _subscriptions.GetMatchCount(newNode, …)', ok, function=f.q, key='SUBSCRIBE-PAIR|%s|matchcount' % f.q,
            how='delta = _subscriptions.GetMatchCount(newNode, NULL, 0)',
-           message='NodeCreated no longer derives the new node\'s subscription mark from the number of this session\'s subscriptions that match it')
+           message='NodeCreated no longer derives the new node\'s subscription mark from the number of this session\'s subscriptions that match its PATH (node, no payload): with a payload the '
+                   'filters are applied, a node whose first payload fails a filter is never marked, and later updates that pass the filter are not sent to the subscriber')
+    # the shared subscriber tables (rules shared with C06)
+    from . import srs_shared as _SH
+    _SH.cow_exact_rule(res, fx, 'SUBSCRIBE-PAIR')
+    _SH.cache_hit_compares_content_rule(res, fx, 'SUBSCRIBE-PAIR')
+    filter_replace_rule(res, fx)
 
     # ---------------------------------------------------------------------------------- FLUSH-ORDER / DELIVERY
     res.rule('FLUSH-ORDER', 'NodeChangedAux: a removal for a path that is already present as a set in the pending update Message is preceded by PushSubscriptionMessages(); '
